@@ -50,6 +50,14 @@ func (r *Run) doCtlExtra(sc *plan.Script, op *plan.Op, rec *plan.Rec) bool {
 // resolveVictim turns a role-tagged failure op (Tag owner|backup|coord|any, Key) into a
 // concrete member index among the running members 0..n-2 (member n-1 is the reserved entry).
 func (r *Run) resolveVictim(op *plan.Op, rec *plan.Rec) bool {
+	if op.Count > 0 && op.Tag == "" {
+		// departure only once every asserted key has its backups
+		if ok, why := r.backedUp(op.Count); !ok {
+			rec.Err, rec.Info = "skipped", "precondition: "+why
+			r.K.Count("probe.stop_skipped_no_backups", 1)
+			return false
+		}
+	}
 	switch op.Tag {
 	case "owner", "backup", "coord", "any":
 	default:
@@ -154,4 +162,33 @@ func (r *Run) getAll(op *plan.Op, rec *plan.Rec) {
 		}
 		rec.Copies = append(rec.Copies, c)
 	}
+}
+
+// backedUp reports whether every live key k0..k<n-1> has its primary copy on the routed owner
+// and min(R, running)-1 backup copies (the precondition the plan puts on a departure).
+func (r *Run) backedUp(n int) (bool, string) {
+	run := len(r.C.Running())
+	want := r.P.Cluster.ReplicaCount - 1
+	if want > run-1 {
+		want = run - 1
+	}
+	for i := 0; i < n; i++ {
+		key := "k" + strconv.Itoa(i)
+		prim, back := 0, 0
+		for _, c := range r.Copies(r.P.DMap, key) {
+			if c.Found && c.Kind == "primary" && c.Routed == "owner" {
+				prim++
+			}
+			if c.Found && c.Kind == "backup" && c.Routed == "backup" {
+				back++
+			}
+		}
+		if prim == 0 && back == 0 {
+			continue
+		}
+		if prim != 1 || back < want {
+			return false, key + " has " + strconv.Itoa(prim) + " primary and " + strconv.Itoa(back) + " backup copies, want 1 and " + strconv.Itoa(want)
+		}
+	}
+	return true, ""
 }
